@@ -32,6 +32,9 @@ type conn struct {
 	reader   *bufio.Reader
 	writer   *bufio.Writer
 	writerMu sync.Mutex // shared lock across all ResponseWriter's to prevent write data races
+
+	// disablePanicRecovery mirrors the server's WithDisablePanicRecovery option
+	disablePanicRecovery bool
 }
 
 // newConn will create a new Conn from an accepted net.Conn which will be used
@@ -137,6 +140,16 @@ func (c *conn) serveRequests() error {
 					c.logger.Debug("requestsWg done", "op", op, "conn", c.connID, "requestID", w.requestID)
 					c.requestsWg.Done()
 				}()
+				if !c.disablePanicRecovery {
+					// requests are served on their own goroutines, out of
+					// reach of the connection's recover: a panicking handler
+					// must not crash the server.
+					defer func() {
+						if r := recover(); r != nil {
+							c.logger.Error("Caught panic while serving request", "op", op, "conn", c.connID, "requestID", w.requestID, "conn/req", fmt.Sprintf("%+v", r))
+						}
+					}()
+				}
 				c.router.serve(w, r)
 			}()
 		}
